@@ -507,6 +507,23 @@ package leveldb
 //@   at before call (*DB).Put#1
 //@     assert [C01,C04:record-is-entered-with-its-own-value] (index.valueLen != 0 ==> sameslice(arg1, b.data[index.valuePos : index.valuePos + index.valueLen])) && (index.valueLen == 0 ==> len(arg1) == 0)
 
+// Rotating the write buffer: the buffer being written becomes the frozen one, its journal becomes the frozen journal
+// (the one dropFrozenMem removes once the flush is committed), the sequence number reached is remembered as the
+// frozen buffer's (it goes into the flush record: every record of the frozen journal is at or below it), and a fresh
+// journal file takes over. dropFrozenMem removes exactly the frozen journal and forgets the frozen buffer.
+//@ func (*DB).newMem
+//@   props C04 C01
+//@   safety off
+//@   ensures [C01,C04:the-old-buffer-is-frozen-with-the-sequence-reached] err == nil ==> (db.frozenMem == old(db.mem) && db.frozenSeq == db.seq && db.mem == mem && mem != nil)
+//@   ensures [C01,C04:the-old-journal-is-the-frozen-journal] (err == nil && old(db.journal) != nil) ==> (db.frozenJournalFd.Num == old(db.journalFd.Num) && db.frozenJournalFd.Type == old(db.journalFd.Type))
+//@   ensures [C01,C04:a-frozen-buffer-is-never-overwritten] old(db.frozenMem) != nil ==> (err != nil && db.frozenMem == old(db.frozenMem) && db.mem == old(db.mem))
+//@ func (*DB).dropFrozenMem
+//@   props C04 C01
+//@   safety off
+//@   at before call storage.Storage.Remove#1
+//@     assert [C01,C04:only-the-frozen-journal-is-removed] arg0.Num == db.frozenJournalFd.Num && arg0.Type == db.frozenJournalFd.Type
+//@   ensures [C01,C04:frozen-buffer-forgotten] db.frozenMem == nil && db.mem == old(db.mem) && db.journalFd == old(db.journalFd)
+
 // Replaying a journal record: the i-th record of the group is entered under the group's sequence number plus i (the
 // numbers the writer gave them), the group is not older than what was already replayed, and exactly as many records
 // are entered as the header announces.
